@@ -45,6 +45,25 @@ def sym_inst(engine, st, cls_name, hint):
     return Z(t, ("inst", cls_name))
 
 
+def new_inst(engine, st, cls_name):
+    """The object a constructor unit is entered with: freshly allocated, of exact class cls_name, private to this thread, with NO
+    instance attribute set yet (every field UNSET, as engine.instantiate leaves it) - so that a field the constructor forgets to
+    initialise is refuted at its exit instead of inheriting an arbitrary, well-typed pre-state value."""
+    from .symexec import UNSET
+    oid = st.alloc(cls_name)
+    st.assume(cls_of(z3.IntVal(oid)) == engine.tag(cls_name))
+    ci = engine.repo.classes[cls_name]
+    fields = set(engine.instance_fields(cls_name))
+    for c_ in ci.mro:
+        fields |= {kf for (kc, kf) in engine.cfg.field_types if kc == c_.name}
+    for f_ in sorted(fields):
+        st.put(engine.heap_key(cls_name, f_), z3.IntVal(oid), UNSET)
+    if engine.repo.is_subclass(cls_name, "Future"):
+        engine.touch_future(st, z3.IntVal(oid))
+    from .vals import ref
+    return Z(ref(oid), ("inst", cls_name))
+
+
 def sym_val(engine, st, ty, hint):
     t = fresh(hint, Val)
     st.assume(engine.ty_formula(st, t, ty))
